@@ -151,6 +151,34 @@ fn main() {
         return;
     }
     #[cfg(any(feature = "libm", feature = "mm", feature = "std"))]
+    if a[3] == "fpcam" || a[3] == "fpcam-thorough" {
+        // the first-person camera's view transform under this build's float backend, as "rigid" records of TV_Proj (C08)
+        use re::math::vec::vec3;
+        use re::render::cam::{FirstPerson, Mode};
+        let mut rng = Rng(seed ^ 0xF9CA);
+        let n = if a[3] == "fpcam" { 400 } else { 20_000 };
+        for i in 0..n {
+            let r = |rng: &mut Rng, m: f64| ((rng.unit() * 2.0 - 1.0) * m).round() as f32;
+            let mag = [4.0, 30.0, 1000.0][i % 3];
+            let pos = [r(&mut rng, mag), r(&mut rng, mag), r(&mut rng, mag)];
+            let mut d = [r(&mut rng, 9.0), r(&mut rng, 9.0), r(&mut rng, 9.0)];
+            if d[0] == 0.0 && d[2] == 0.0 { d[0] = 1.0; }
+            let res = guard(|| {
+                let mut fp = FirstPerson::new();
+                fp.pos = vec3(pos[0], pos[1], pos[2]);
+                fp.look_at(vec3(pos[0] + d[0], pos[1] + d[1], pos[2] + d[2]));
+                fp.world_to_view()
+            });
+            let s4 = |x: f32| -> i64 { let v = (x as f64 * 4096.0).round(); if v.is_finite() { v.clamp(-2e9, 2e9) as i64 } else { 2_000_000_000 } };
+            let (p, rows) = match res {
+                Some(m) => (0, (0..3).map(|i| (0..4).map(|j| s4(m.0[i][j])).collect::<Vec<_>>()).collect::<Vec<_>>()),
+                None => (1, vec![vec![0; 4]; 3]),
+            };
+            writeln!(out, "{}", json!({"k": format!("{be}-cam{i}"), "op": "rigid", "be": be, "pos": pos, "d": d, "M": rows, "panic": p})).unwrap();
+        }
+        return;
+    }
+    #[cfg(any(feature = "libm", feature = "mm", feature = "std"))]
     if a[3] == "anglewrap" || a[3] == "anglewrap-thorough" {
         // Angle::wrap under this build's float backend, in the record format of TV_Angle (C18)
         use re::math::angle::degs;
